@@ -218,13 +218,11 @@ def run_fuzz(pid, tier, seed, job, scratch):
     """native coverage-guided fuzzing, thorough only; returns (status, execs, replay paths, detail)"""
     pkg = PROPS[pid]["pkg"]
     secs = tierval(job.get("fuzztime"), tier, 30)
-    cache = os.path.join(scratch, "fuzzcache-" + job["test"])
-    os.makedirs(cache)
     tdir = os.path.join(HARNESS, pkg, "testdata", "fuzz", job["test"])
     before = set(os.listdir(tdir)) if os.path.isdir(tdir) else set()
     log = os.path.join(scratch, "fuzz-" + job["test"] + ".log")
     cmd = ["go", "test", "-tags", TAGS, "-run", "^$", "-fuzz", "^" + job["test"] + "$",
-           "-fuzztime", "%ds" % secs, "-test.fuzzcachedir", cache, "./" + pkg]
+           "-fuzztime", "%ds" % secs, "./" + pkg]
     env = env_for({"VERIF_TIER": tier, "VERIF_SEED": seed, "VERIF_PROPERTY": pid})
     rc, timed_out, wall = run_proc(cmd, HARNESS, env, log, secs + 300)
     out = open(log, errors="replace").read()
